@@ -204,7 +204,7 @@ def check_module_nodes(chk, text, ir, errs, batch, stats, origin, modules=None):
         if top and attr != "static_requirements" and not in_enum_value[0]:
             tr = atree(expr)
             if tr is not None and expr.source_location is not None:
-                tops.append((str(expr.source_location), tr, ctx))
+                tops.append((str(expr.source_location), tr, ctx, expr))
 
     in_enum_value = [False]
     tops = []
@@ -239,19 +239,63 @@ def check_module_nodes(chk, text, ir, errs, batch, stats, origin, modules=None):
     for line, lst in gk.items():
         for loc, k in lst:
             best = None
-            for i, (rng, tr, ctx) in enumerate(tops):
+            for i, (rng, tr, ctx, _e) in enumerate(tops):
                 if within(loc, rng):
                     sz = range_size(rng)
                     if best is None or sz < best[0]:
                         best = (sz, i)
             if best is not None:
                 got.setdefault(best[1], []).append(k)
-    for i, (rng, tr, ctx) in enumerate(tops):
+    for i, (rng, tr, ctx, top_expr) in enumerate(tops):
         kinds = sorted(got.get(i, []))
+        if not kinds:
+            # spec oracle for an *accepted* expression (property statement: "every run-time
+            # subexpression of an accepted module fits one 64-bit type together with its operands")
+            why = spec_gate(top_expr)
+            if why:
+                chk.violation("input", dict(ctx, observed="accepted by the 64-bit gate",
+                                            expected="rejected: " + why, tree=tr))
         want = "ok" if not kinds else "err " + ",".join(kinds)
         key = "gate:" + ("ok" if not kinds else "reject")
         stats[key] = stats.get(key, 0) + 1
         batch.ask("GATE " + tr, want, ctx, "gate")
+
+
+def _const_type(t):
+    w = t.which_type
+    if w == "integer":
+        return t.integer.modulus == "infinity"
+    if w == "boolean":
+        return t.boolean.has_field("value")
+    if w == "enumeration":
+        return t.enumeration.has_field("value")
+    return False
+
+
+def spec_gate(expr):
+    """None if every run-time subexpression fits one 64-bit type with its operands."""
+    def rng(e):
+        i = e.type.integer
+        if i.minimum_value in ("-infinity", "infinity") or i.maximum_value in ("-infinity", "infinity"):
+            return None
+        return int(i.minimum_value), int(i.maximum_value)
+    if expr.type.which_type == "integer":
+        r = rng(expr)
+        if r is None:
+            return "unbounded value at %s" % expr.source_location
+        if not ((r[0] >= -TWO63 and r[1] <= TWO63 - 1) or (r[0] >= 0 and r[1] <= TWO64 - 1)):
+            return "range %s..%s at %s fits neither int64 nor uint64" % (r[0], r[1], expr.source_location)
+    if expr.which_expression == "function" and not _const_type(expr.type):
+        for a in expr.function.args:
+            why = spec_gate(a)
+            if why:
+                return why
+        rs = [rng(c) for c in [expr] + list(expr.function.args) if c.type.which_type == "integer"]
+        if rs and not (all(r[0] >= -TWO63 and r[1] <= TWO63 - 1 for r in rs) or
+                       all(r[0] >= 0 and r[1] <= TWO64 - 1 for r in rs)):
+            return "operands and result of the operation at %s do not fit one 64-bit type: %s" % (
+                expr.source_location, rs)
+    return None
 
 
 def range_size(s):
@@ -480,7 +524,7 @@ def ast_is_int(a):
 
 
 # ------------------------------------------------------------------ spec oracle
-EXHAUSTIVE_LIMIT = [2 ** 12]   # quick; thorough: 2 ** 16
+EXHAUSTIVE_LIMIT = [2 ** 12]   # quick; thorough: 2 ** 14
 SAMPLES = [400]
 
 
@@ -1113,7 +1157,7 @@ def run(tier):
     chk.assumptions.append("virtual-field references and $present are represented in the model by the "
                            "referenced expression; the copy is checked node-wise in Python")
     if tier == "thorough":
-        EXHAUSTIVE_LIMIT[0], SAMPLES[0] = 2 ** 16, 2000
+        EXHAUSTIVE_LIMIT[0], SAMPLES[0] = 2 ** 14, 1500
     model_ok = common.proof_gate(chk, search)
     r = common.rng("C05")
     stats = {}
@@ -1126,7 +1170,7 @@ def run(tier):
         run_text(chk, r, batch, stats, text, parse_lets(text), model_ok, "corpus")
     if model_ok:
         settle(chk, batch, stats)
-    n = 260 if tier == "quick" else 9000
+    n = 260 if tier == "quick" else 3000
     for i in range(n):
         big = r.random() < 0.35
         dynamic = r.random() < 0.12
